@@ -982,7 +982,8 @@ struct Anchor {
 /// `dangling` holds anything after the last node.
 struct Trivia {
     leading: HashMap<usize, Vec<TriviaItem>>,
-    trailing: HashMap<usize, Vec<String>>,
+    /// `(comment, own_line)`: `own_line` comments sat on a line of their own after the node.
+    trailing: HashMap<usize, Vec<(String, bool)>>,
     dangling: Vec<TriviaItem>,
     /// The content lines of every `"""` literal rendered so far. They are kept out of the laid-out
     /// text (which holds a one-line placeholder instead) until after `collapse_blanks`, so that
@@ -1026,43 +1027,101 @@ impl Trivia {
         by_end.sort_unstable();
 
         let mut leading: HashMap<usize, Vec<TriviaItem>> = HashMap::new();
-        let mut trailing: HashMap<usize, Vec<String>> = HashMap::new();
+        let mut trailing: HashMap<usize, Vec<(String, bool)>> = HashMap::new();
         let mut dangling = Vec::new();
         // The node a leading item precedes: the nearest anchor starting after it.
         let following = |offset: usize| {
             let index = anchors.partition_point(|anchor| anchor.start <= offset);
-            anchors.get(index).map(|anchor| anchor.start)
+            anchors.get(index)
         };
         // The node a trailing comment follows: the anchor ending nearest before it.
         let preceding = |offset: usize| {
             let index = by_end.partition_point(|&(end, _)| end <= offset);
-            index.checked_sub(1).map(|i| by_end[i].1)
+            index.checked_sub(1).map(|i| by_end[i])
         };
+        // The innermost node a comment sits inside of (a comment between the brackets of a tuple, in
+        // a block, inside a type or pattern). A comment stays inside it: it attaches to a neighbour
+        // within that node, or failing that to the node itself — never to a node outside, which
+        // would carry it past the comments that follow.
+        let enclosing = |offset: usize| {
+            let index = anchors.partition_point(|anchor| anchor.start <= offset);
+            anchors[..index]
+                .iter()
+                .rev()
+                .find(|anchor| offset < anchor.end)
+        };
+        // (offset of the last comment attached as leading, start of the node it leads)
+        let mut last_leading: Option<(usize, usize)> = None;
         for item in scan_trivia(source, &strings) {
             match item {
                 Scanned::Blank(offset) => match following(offset) {
-                    Some(anchor) => leading.entry(anchor).or_default().push(TriviaItem::Blank),
+                    Some(anchor) => leading
+                        .entry(anchor.start)
+                        .or_default()
+                        .push(TriviaItem::Blank),
                     None => dangling.push(TriviaItem::Blank),
                 },
                 Scanned::Comment {
                     offset,
                     text,
-                    trailing: true,
-                } => match preceding(offset) {
-                    Some(anchor) => trailing.entry(anchor).or_default().push(text),
-                    None => dangling.push(TriviaItem::Comment(text)),
-                },
-                Scanned::Comment {
-                    offset,
-                    text,
-                    trailing: false,
-                } => match following(offset) {
-                    Some(anchor) => leading
-                        .entry(anchor)
-                        .or_default()
-                        .push(TriviaItem::Comment(text)),
-                    None => dangling.push(TriviaItem::Comment(text)),
-                },
+                    trailing: same_line,
+                } => {
+                    let outer = enclosing(offset);
+                    let within = |start: usize, end: usize| {
+                        outer.is_none_or(|outer| {
+                            outer.start <= start
+                                && end <= outer.end
+                                && (start, end) != (outer.start, outer.end)
+                        })
+                    };
+                    let before = preceding(offset).filter(|&(end, start)| within(start, end));
+                    let after = following(offset).filter(|anchor| within(anchor.start, anchor.end));
+                    // A comment never overtakes an earlier one: once a comment after `before` has
+                    // been handed to a later node, the ones behind it follow it there.
+                    let before = before.filter(|&(end, _)| {
+                        !last_leading.is_some_and(|(comment, _)| comment >= end)
+                    });
+                    let after = match (before, last_leading) {
+                        (None, Some((_, target))) if target > offset => {
+                            after.or(anchors.iter().find(|anchor| anchor.start == target))
+                        }
+                        _ => after,
+                    };
+                    // "At the end of a node's line" means just that: the node ends on this line. A
+                    // comment with only punctuation before it on its line (`, // c`, `| // c`) is
+                    // placed like one on a line of its own.
+                    // A node before the comment is its neighbour only if no bracket closes between
+                    // them (else that node sits in a container the comment is not part of).
+                    let before = before.filter(|&(end, _)| {
+                        outer.is_none() || !source[end..offset].contains(['}', ']', ')'])
+                    });
+                    let at_line_end = same_line
+                        && before.is_some_and(|(end, _)| !source[end..offset].contains('\n'));
+                    match (at_line_end, before, after, outer) {
+                        (true, Some((_, start)), _, _) => {
+                            trailing.entry(start).or_default().push((text, false))
+                        }
+                        // Otherwise it leads the next node…
+                        (_, _, Some(anchor), _) => {
+                            last_leading = Some((offset, anchor.start));
+                            leading
+                                .entry(anchor.start)
+                                .or_default()
+                                .push(TriviaItem::Comment(text))
+                        }
+                        // …or, before a closing bracket, stays below the last node inside.
+                        (false, Some((_, start)), None, Some(_)) => {
+                            trailing.entry(start).or_default().push((text, true))
+                        }
+                        // No neighbour inside the enclosing node: it goes to the end of that node's
+                        // last line.
+                        (_, None, None, Some(outer)) => {
+                            trailing.entry(outer.start).or_default().push((text, false))
+                        }
+                        // At the top level, after the last node.
+                        (_, _, None, None) => dangling.push(TriviaItem::Comment(text)),
+                    }
+                }
             }
         }
         Trivia {
@@ -1102,13 +1161,17 @@ impl Trivia {
         let Some(comments) = span.get().and_then(|span| self.trailing.get(&span.offset)) else {
             return pretty::nil();
         };
+        // A comment written at the end of the node's line goes there again; one that stood below it
+        // gets a line of its own again.
         let parts = comments
             .iter()
-            .flat_map(|text| {
-                [
-                    pretty::line_suffix(pretty::text(format!(" {}", text))),
-                    pretty::break_parent(),
-                ]
+            .flat_map(|(text, own_line)| {
+                let comment = if *own_line {
+                    pretty::concat(vec![pretty::hardline(), pretty::text(text.clone())])
+                } else {
+                    pretty::text(format!(" {}", text))
+                };
+                [pretty::line_suffix(comment), pretty::break_parent()]
             })
             .collect();
         pretty::concat(parts)
